@@ -72,7 +72,7 @@ def freeze(x):
     if not isinstance(x, Arr):
         return x
     b = Buf(x.buf.n, x.buf.elem, x.buf.owner, mutable=False)
-    b.sct, b.is_var = x.buf.sct, x.buf.is_var
+    b.sct, b.is_var, b.prov, b.symid, b.pure_stack = x.buf.sct, x.buf.is_var, x.buf.prov, x.buf.symid, x.buf.pure_stack
     return Arr(x.dialect, x.kind, b, x.lo, x.n, x.symtype)
 
 
@@ -157,7 +157,19 @@ def _mk(dialect, kind, n, elem, ops=(), owner="fresh"):
             a.buf.sct = s
         return a
     a = mk_vec(dialect, kind, n, elem, owner, symtype=_symtype(ops))
+    if dialect == "cs":
+        a.buf.prov = merge_prov(ops)
     return a
+
+
+def merge_prov(ops):
+    out = []
+    for o in ops:
+        if isinstance(o, Arr):
+            for p in o.buf.prov:
+                if p not in out:
+                    out.append(p)
+    return tuple(out)
 
 
 def broadcast_len(ops, what):
@@ -325,6 +337,10 @@ def getitem_int(a, i):
         return mk_scalar("np", "npscalar", val)
     if a.dialect == "cs":
         r = mk_vec("cs", "m", 1, lambda j, v=val: v, "fresh", symtype=a.symtype)
+        r.buf.prov = a.buf.prov
+        if a.buf.symid is not None:
+            r.buf.symid = ("entry", a.buf.symid, idx)
+            r.buf.is_var = True
         return r
     r = mk_scalar("abs", "sc", val)
     r.buf.sct = ZERO
@@ -522,7 +538,12 @@ def concat(dialect, parts, kind):
     """parts: python list whose items are numbers / Arr, or one SSeq of scalars"""
     if isinstance(parts, SSeq):
         seq = parts
-        return _mk(dialect, kind, seq.n, lambda j: at(seq.elem(j), 0), ())
+        r = _mk(dialect, kind, seq.n, lambda j: at(seq.elem(j), 0), ())
+        ent = getattr(seq, "entries_of", None)
+        if ent is not None and dialect == "cs":
+            # the entries of one symbol vector, in order, stacked again: that symbol
+            r.buf.prov, r.buf.symid, r.buf.is_var, r.symtype = (ent,), ent, True, getattr(seq, "symtype", None)
+        return r
     parts = [freeze(p) for p in parts]
     offs = []
     total = ZERO
@@ -538,7 +559,12 @@ def concat(dialect, parts, kind):
             r = v if r is None else T.ite(T.lt(j, T.add(off, ln)), v, r)
         return r if r is not None else T.const(0, T.REAL)
 
-    return _mk(dialect, kind, total, elem, tuple(p for p in parts if isinstance(p, Arr)))
+    r = _mk(dialect, kind, total, elem, tuple(p for p in parts if isinstance(p, Arr)))
+    if dialect == "cs":
+        arrs = [p for p in parts if isinstance(p, Arr)]
+        pure = len(arrs) == len(parts) and all((p.buf.symid is not None and not isinstance(p.buf.symid, tuple)) or getattr(p.buf, "pure_stack", False) for p in arrs)
+        r.buf.pure_stack = bool(pure)
+    return r
 
 
 def shape_of(a):
